@@ -1,5 +1,5 @@
 """C14 -- allocation history: inductive representation invariants of the block cache and the header cache."""
-from vplib.core import Group
+from vplib.core import Group, with_canaries
 
 LEVEL = "proof"
 META = {"explanation": "each cache operation is verified from an arbitrary state satisfying the representation invariant (constructed non-deterministically by the harness; the eviction cursor is driven to an arbitrary position by the real code), so preservation + the per-operation post-conditions hold after every history by induction; all loops have constant bounds (16 slots, 16 header blocks, 64 bits) and are unwound completely",
@@ -33,4 +33,4 @@ def groups(tier, seed):
         g("INIT", "mzd_init", extra={"RMAX": rmax, "CMAX": cmax}, bounded=True, note="%d x %d" % (rmax, cmax), timeout=900)
         if rmax and cmax:
             g("WINDOW_FREE", "mzd_init_window/mzd_free", extra={"RMAX": rmax, "CMAX": cmax}, bounded=True, note="parent %dx%d, window placement symbolic" % (rmax, cmax), timeout=900)
-    return gs
+    return with_canaries(gs)
